@@ -93,7 +93,7 @@ def tlc(module, cfg=None, workers=None, timeout=900, coverage=False, simulate=No
     workers = workers or min(16, os.cpu_count() or 4)
     wname = workname or f"tlc-{cfg}-{os.getpid()}"
     meta = workdir(wname)
-    cmd = ["java", "-XX:+UseParallelGC", f"-Xmx{heap}", "-cp", TLA_CP, "tlc2.TLC",
+    cmd = ["java", "-XX:+UseParallelGC", "-Xss256m", f"-Xmx{heap}", "-cp", TLA_CP, "tlc2.TLC",
            "-workers", str(workers), "-metadir", meta, "-noGenerateSpecTE",
            "-config", f"{cfg}.cfg"]
     if coverage:
@@ -196,6 +196,16 @@ class Run:
         self.tier = "thorough" if a.tier == "thorough" else "quick"
         self.seed = a.seed
         self.replay = a.replay
+        self.replay_key = None
+        if self.replay:
+            # --replay <file>: re-run the check at the tier/seed recorded in the replay file and report whether the
+            # recorded violation (same key) still occurs: exit 1 iff it does
+            rec = json.load(open(self.replay))
+            self.replay_key = rec.get("key")
+            self.tier = rec.get("tier", self.tier)
+            self.seed = rec.get("seed", self.seed)
+            print(f"REPLAY of {self.replay}: property={rec.get('property')} key={self.replay_key!r} tier={self.tier} seed={self.seed}")
+            print(f"  recorded: {rec.get('description', '')[:500]}")
         self.level = level
         self.t0 = time.time()
         self.violations = []      # (key, description, replay path)
@@ -217,7 +227,7 @@ class Run:
         self.known = [k for k in load_known_findings().get("open", []) if k.get("property") == pid]
         os.makedirs(EVID, exist_ok=True)
         os.makedirs(REPLAYS, exist_ok=True)
-        if not self.replay:
+        if not self.replay and os.path.isdir(REPLAYS):
             for fn in os.listdir(REPLAYS):
                 if fn.startswith(pid + "-"):
                     os.remove(os.path.join(REPLAYS, fn))
@@ -299,6 +309,10 @@ class Run:
               f"violations={len(self.violations)} known={len(self.known_hits)} drift={self.drift} "
               f"wall={wall:.1f}s")
         sys.stdout.flush()
+        if self.replay_key is not None:
+            again = self.violation_keys.get(self.replay_key, 0)
+            print(f"REPLAY result: key {self.replay_key!r} {'reproduced ' + str(again) + ' time(s)' if again else 'did not reproduce'}")
+            return 1 if again else 0
         return 1 if self.violations else 0
 
 
